@@ -131,12 +131,18 @@ public:
     void resize(size_t size, const T &value) {
         destroy(size, m_size);
 
-        m_array = static_cast<T*>(realloc(m_array, size * sizeof(T)));
-
         if (size > m_size) {
+            // value may refer to an element of this array,
+            // which realloc is free to move
+            const T fill(value);
+
+            m_array = static_cast<T*>(realloc(m_array, size * sizeof(T)));
+
             for (size_t i = m_size; i < size; ++i) {
-                new (&m_array[i]) T(value);
+                new (&m_array[i]) T(fill);
             }
+        } else {
+            m_array = static_cast<T*>(realloc(m_array, size * sizeof(T)));
         }
 
         m_size = size;
